@@ -24,6 +24,7 @@ EXPLANATION = (
     "negative, mixed, tied, infinite) is non-increasing in the objective, at least `offset`, and None for infinite "
     "values. (R7) reverse_rank is the dense ranking (1 = lowest, ties share a rank) for every weak ordering of up to 4 objective values. NOT decided: sampling frequencies; the DE selections' index arithmetic; panics on degenerate parameters "
     "(tournament size 0, empty populations for samplers) that the operators do not document as errors.")
+EXPLANATION += " " + '(R2 revised) the driver runs on the REAL population stack with 0..2 populations underneath; stack and generator are cells of the typed store owned by the current or the ENCLOSING scope and must still be held by exactly their owner afterwards.'
 ASSUMPTIONS = ["rand's choose / choose_multiple return members of the slice (choose_multiple: distinct ones)"]
 
 SEL = "mahf::components::selection::"
